@@ -46,6 +46,10 @@ from dataclasses import dataclass
 from typing import NamedTuple
 K1 = 3
 K2 = 0.5
+# module globals spelled like lambda parameters / comprehension variables of the queries (always shadowed there)
+e = 90
+j = 91
+t = 92
 def hscale(a): return a * 2
 def hadd(a, b=1):
     return a + b
